@@ -1,5 +1,6 @@
 import NfcVerif.Lemmas.AdvT34
 import NfcVerif.Lemmas.AdvT3
+import NfcVerif.Lemmas.AdvT2
 import NfcVerif.Lemmas.AdvAct
 /-!
 # C08 - Activating and reading arbitrary tags terminates safely
@@ -13,6 +14,9 @@ that answers consist of octets):
 * `t1_read_safe`: the Type 1 reader needs at most 1300 interactions (amortised over the cache length:
   a tag may answer RALL with fewer than 120 octets again and again), never raises, and returns `None`
   or an object whose octets were read from inside the data area `[12, end)`.
+* `t2_read_safe`: the Type 2 reader needs at most 86066 interactions (8 per 16-byte chunk below address
+  172100 = 2055 + 4 + 65535 + 104448 reserved bytes at most), never raises (no sector number above 255),
+  and returns `None` or an object whose octets were read from inside the data area `[16, end)`.
 * `t3_read_safe`: the Type 3 reader needs at most 6 + 3*65536 interactions, never raises, returns `None`
   or an object with `length ≤ capacity` and octets from blocks inside the data area.
 * `t4_read_safe` (full at APDU level): at most 7 + 65536 APDUs, never raises, `None` or an object with
@@ -47,6 +51,13 @@ theorem t1_read_safe (t : Tag) (hT : TagBytes t) (uid : Bytes) (w : W) :
 
 /-- non-vacuity: the tag that never answers is a tag of octets -/
 example : TagBytes (fun _ => none) := by intro n b h; cases h
+
+/-- Type 2: every tag; bounded, never an exception, octets from inside the data area -/
+theorem t2_read_safe (t : Tag) (hT : TagBytes t) (w : W) (sector : Nat) (alive : Bool) :
+    (readNdef2 t w sector alive).2.w.n ≤ w.n + 86066 ∧
+    ((readNdef2 t w sector alive).1 = .ok none ∨
+     ∃ d, (readNdef2 t w sector alive).1 = .ok (some d) ∧ SafeA d ∧ d.lo = 16) :=
+  readNdef2_safe hT w sector alive
 
 /-- Type 3: every tag; bounded, never an exception, `None` or a safe object -/
 theorem t3_read_safe (t : Tag) (hT : TagBytes t) (s : S3) (hI : I3 s) :
